@@ -13,6 +13,12 @@ Implementation driven (all real code, in a throw-away sandbox tree under tempfil
     directory by Job.stageIn or by repeated StageReference calls, with colliding and nested names and with links
     already in the directory (Path.Model.stage_seq).
 
+  * several COMPONENTS staged by this one process, each into its own working directory (<sandbox>/t/work, t/wb, t/wc),
+    referencing the SAME archive file (written once, same path / mtime / size; also reached through a symbolic link, a
+    hard link or a copy2 of it), and one component that references an archive again after its directory changed: every
+    component is compared with Path.Model.stage_seq over what ITS directory held (Path.Model.stage_components), its
+    outside listing covers the directories of the other components.
+
 Predicate (the property as stated): a recursive listing (names, kinds, sizes, contents digest, link
 targets) of everything in the sandbox OUTSIDE the target directory is the same before and after;
 every input that lexically leaves the target (member name, link target, manifest key) is refused, and
@@ -45,6 +51,9 @@ ASSUMPTIONS = [
     'stops at the first failure) / StageReference called once per reference; what the directory holds before and after '
     '(every entry, kind, lexically normalised link target) is read by the harness and compared with Path.Model.stage_seq; '
     'what tarfile does when an accepted member meets an existing entry of another kind is not modelled (step marked inexact)',
+    'several components in one process: staged one after the other (not concurrently) by this process, which also ran every '
+    'earlier case — whatever the staging code keeps at module level is carried from case to case, as in a long-lived '
+    'workflow process; the archive files of a multi-component case are written once and not touched again',
     'Job.stageIn is driven with a duck-typed job (type, references, working directory); the DataReference objects are '
     'duck-typed (method, resolve(), stringRepresentation)',
     'ExperimentPackage is built over a duck-typed configuration (location, isExperimentPackageDirectory, manifestData)',
@@ -682,14 +691,15 @@ def gen_seq(rng):
     return pre, steps
 
 
-def work_state(sb):
+def work_state(sb, work=None):
     """every entry of the working directory: (relative path, kind code, lexically normalised canonical target of a link)"""
     out = []
-    for rel, desc in sorted(listing(sb.work).items()):
+    work = work or sb.work
+    for rel, desc in sorted(listing(work).items()):
         kind = desc.split(':', 1)[0]
         tgt = ''
         if kind == 'link':
-            p = os.path.join(sb.work, rel)
+            p = os.path.join(work, rel)
             tgt = sb.canonical(os.path.normpath(os.path.join(os.path.dirname(p), os.readlink(p))))
         out.append((rel, {'dir': 0, 'file': 1, 'link': 2}[kind], tgt))
     return out
@@ -708,14 +718,60 @@ def seq_classes(pre, steps):
     return []
 
 
-def run_seq_case(ctx, pre, steps, via_job, label):
-    import experiment.model.data as D
+def run_seq_case(ctx, pre, steps, via_job, label, share=False):
+    """one component: [pre] is put into a fresh working directory, then the references are staged.  share: steps that
+    extract the same member list reference ONE archive file, written once (a component that names an archive twice)"""
     pool = POOLS['work']
     sb = pool.acquire()
     changed = True
     try:
+        r, changed = seq_core(ctx, sb, sb.work, pre, steps, via_job, label, {} if share else None)
+        return r
+    finally:
+        pool.release(sb, changed)
+
+
+def archive_for(sb, archives, what, i, alias=None, tag=''):
+    """the archive file of an :extract step.  archives (a dict shared by the steps / components of one case, or None):
+    one FILE per distinct member list, written once and then left alone — same path, same content, same mtime — the way
+    the replicas and consumers of a workflow all reference one input/bundle.tar.  alias: the reference reaches that
+    file by another path ('symlink': a link to it, 'copy': shutil.copy2 of it — same size and mtime, 'hard': a hard link)"""
+    real = [(sb.real(n), k, sb.real(l)) for (n, k, l) in what]
+    if archives is None:
+        arch = os.path.join(sb.root, 'arch', 's%d.tar' % i)
+        write_archive(arch, real, tarfile.GNU_FORMAT)
+        return arch
+    key = tuple(tuple(m) for m in what)
+    if key not in archives:
+        arch = os.path.join(sb.root, 'arch', 'm%d.tar' % len(archives))
+        write_archive(arch, real, tarfile.GNU_FORMAT)
+        archives[key] = arch
+    arch = archives[key]
+    if alias:
+        other = os.path.join(sb.root, 'arch', 'alias%s_%d.tar' % (tag, i))
+        if os.path.lexists(other):
+            os.unlink(other)
+        if alias == 'symlink':
+            os.symlink(arch, other)
+        elif alias == 'hard':
+            os.link(arch, other)
+        else:
+            shutil.copy2(arch, other)
+        arch = other
+    return arch
+
+
+def seq_core(ctx, sb, work, pre, steps, via_job, label, archives=None, outer=None, alias=None):
+    """[pre] is put into the working directory [work] (created by the caller), the references are staged into it by the
+    real code, the outside listing (everything in the sandbox that is not below [work]) is compared.  outer: (canonical
+    multi-component case, index of this component) when the directory is one of several staged in this process.
+    Returns ((term, canonical case, impl), something outside changed)"""
+    import experiment.model.data as D
+    changed = True
+    tag = '' if outer is None else 'c%d' % outer[1]
+    if True:
         for rel, kind, text in pre:
-            q = os.path.join(sb.work, rel)
+            q = os.path.join(work, rel)
             if not os.path.isdir(os.path.dirname(q)):
                 os.makedirs(os.path.dirname(q))
             if kind == 'link':
@@ -728,8 +784,7 @@ def run_seq_case(ctx, pre, steps, via_job, label):
         refs, terms, cseq = [], [], []
         for i, (method, what) in enumerate(steps):
             if method == 'extract':
-                arch = os.path.join(sb.root, 'arch', 's%d.tar' % i)
-                write_archive(arch, [(sb.real(n), k, sb.real(l)) for (n, k, l) in what], tarfile.GNU_FORMAT)
+                arch = archive_for(sb, archives, what, i, alias, tag)
                 seen = [(sb.canonical(n), k, sb.canonical(l)) for (n, k, l) in read_members(arch)]
                 r = Ref('extract', arch)
                 terms.append('(RExtract %s)' % clist(seen, cmember))
@@ -752,9 +807,15 @@ def run_seq_case(ctx, pre, steps, via_job, label):
         if via_job:
             order = [i for i in order if steps[i][0] != 'copyout'] + [i for i in order if steps[i][0] == 'copyout']
         canon = {'seq': cseq, 'pre': [[r, k, sb.canonical(sb.real(t))] for r, k, t in pre], 'via_job': via_job}
+        if archives is not None and outer is None:
+            canon['share'] = True
+        mine = canon
+        if outer is not None:
+            canon = outer[0]
+        where = '' if outer is None else ' (component %d of the case, %s)' % (outer[1], os.path.relpath(work, sb.root))
         cls = seq_classes(pre, [steps[i] for i in order])
-        st0 = work_state(sb)
-        before = pool.snapshot(sb)
+        st0 = work_state(sb, work)
+        before = listing(sb.root, exclude=work)
 
         def code(e):
             if type(e).__name__ == 'DataReferenceCouldNotStageError':
@@ -762,7 +823,7 @@ def run_seq_case(ctx, pre, steps, via_job, label):
             return 3 if type(e).__name__ == 'DataReferenceFilesDoNotExistError' else 4
         codes, errors = [], []
         if via_job:
-            exc = stage(sb.work, refs, True)
+            exc = stage(work, refs, True)
             if exc is None:
                 codes = [0] * len(order)
             else:
@@ -770,7 +831,7 @@ def run_seq_case(ctx, pre, steps, via_job, label):
                 codes = [0] * (at[0] if at else 0) + [code(exc)]
                 errors.append(type(exc).__name__)
         else:
-            wd = WorkDir(sb.work)
+            wd = WorkDir(work)
             for i in order:
                 try:
                     D.StageReference(refs[i], wd, None)
@@ -778,9 +839,10 @@ def run_seq_case(ctx, pre, steps, via_job, label):
                 except BaseException as e:  # noqa
                     codes.append(code(e))
                     errors.append(type(e).__name__)
-        after = listing(sb.root, exclude=sb.work)
+        after = listing(sb.root, exclude=work)
         changed = before != after
-        ctx.case(canon, nontrivial=True)
+        if outer is None:
+            ctx.case(canon, nontrivial=True)
         ctx.count('seq:' + label)
         ctx.count('seq:steps=%d' % len(steps))
         for i, c in zip(order, codes):
@@ -789,25 +851,166 @@ def run_seq_case(ctx, pre, steps, via_job, label):
             ctx.count('seq:file-copied-onto-a-name-that-was-linked')
         ch = diff_listing(before, after)
         if ch:
-            ctx.fail(canon, 'staging a sequence of references into one working directory changed something outside it: %s' % ch[:3], cls)
+            ctx.fail(canon, 'staging a sequence of references into one working directory changed something outside it%s: %s'
+                     % (where, ch[:3]), cls)
         if any(c > 2 for c in codes):
-            ctx.fail(canon, 'staging raised %s instead of a staging error' % errors, cls)
-        st1 = work_state(sb)
+            ctx.fail(canon, 'staging raised %s instead of a staging error%s' % (errors, where), cls)
+        st1 = work_state(sb, work)
         if any(k == 2 for _, k, _ in st1):
             ctx.count('seq:directory-holds-links-afterwards')
 
         def cfs(e):
             rel, k, t = e
-            return cpair(csegs(os.path.join(sb.canonical(sb.work), rel)), ['EDir', 'EFile', '(ELink %s)' % csegs(t)][k])
+            return cpair(csegs(os.path.join(sb.canonical(work), rel)), ['EDir', 'EFile', '(ELink %s)' % csegs(t)][k])
         term = '(%s, %s, %s, %s, %s, %s)' % (
-            csegs(sb.canonical(sb.work)), clist(st0, cfs), '[%s]' % '; '.join(terms[i] for i in order), cbool(via_job),
+            csegs(sb.canonical(work)), clist(st0, cfs), '[%s]' % '; '.join(terms[i] for i in order), cbool(via_job),
             clist(codes, cnat), clist(st1, lambda e: '(%s, %s, %s)' % (csegs(e[0]), cnat(e[1]), csegs(e[2]))))
-        ctx.sample({'found in the directory': canon['pre'], 'references': [[m, w if isinstance(w, str) else w[:3]] for m, w in cseq],
-                    'via_job': via_job, 'codes (0 staged 1 refused 2 OSError)': codes,
-                    'directory afterwards': [[r, k, t] for r, k, t in st1][:8]}, limit=24)
-        return (term, canon, {'codes': codes, 'errors': errors, 'directory': [[r, k, t] for r, k, t in st1][:30]})
+        smp = {'found in the directory': mine['pre'], 'references': [[m, w if isinstance(w, str) else w[:3]] for m, w in cseq],
+               'via_job': via_job, 'codes (0 staged 1 refused 2 OSError)': codes,
+               'directory afterwards': [[r, k, t] for r, k, t in st1][:8]}
+        if outer is not None:
+            smp['component'] = '%d of a multi-component case: %s' % (outer[1], os.path.relpath(work, sb.root))
+            ctx.sample(smp, limit=36)
+        else:
+            ctx.sample(smp, limit=24)
+        impl = {'codes': codes, 'errors': errors, 'directory': [[r, k, t] for r, k, t in st1][:30]}
+        if outer is not None:
+            impl['component'] = outer[1]
+        return (term, canon, impl), changed
+
+
+# ------------------------------------------------------------------ several components staged in ONE process
+# The components of a workflow are staged by one process, one Job.stageIn after the other, and they reference the SAME
+# input files: one archive file (same path, unchanged) is extracted into several working directories.  Whether it may
+# be extracted depends on the directory it goes INTO — the links that directory holds, which absolute names are inside
+# it — so nothing the staging code remembers from an earlier call (another directory, another state of this one) may
+# decide a later one.  A case is a list of components {'dir', 'pre', 'seq', 'via_job', 'alias'} staged in that order;
+# extract steps with the same member list share one archive file written once (archive_for); each component's outside
+# listing covers the directories of all the others; every component is compared with Path.Model.stage_seq over what
+# ITS directory held.
+MULTI_DIRS = ['t/work', 't/wb', 't/wc']
+MULTI_ABS = [[(SB + '/%s/state.txt', 'file', ''), ('notes.txt', 'file', '')],
+             [('d', 'dir', ''), (SB + '/%s/d/in.txt', 'file', '')],
+             [('l', 'sym', SB + '/%s/notes.txt'), ('notes.txt', 'file', '')]]
+MULTI_ALIAS = [None, None, 'symlink', 'copy', 'hard']
+
+
+def extract_steps(n):
+    return [st for st in SEQ_STEPS[n] if st[0] == 'extract']
+
+
+def multi_family():
+    """systematic: every archive of the colliding-name alphabets, first into an empty directory, then (the same file) into
+    a directory prepared in every way that puts something at / on the way to the name; every third case the other way
+    round (a refusal must not be remembered either); archives with absolute names inside one directory staged into it
+    and then into each other one"""
+    out = []
+    k = 0
+    for n in sorted(SEQ_STEPS):
+        preps = [(pre, []) for pre in SEQ_PRE[n]] + [([], [st]) for st in SEQ_STEPS[n] if st[0] != 'extract']
+        for a in extract_steps(n):
+            for pre, before in preps:
+                clean = {'dir': MULTI_DIRS[k % 3], 'pre': [], 'seq': [a], 'via_job': k % 2 == 0, 'alias': None}
+                prepared = {'dir': MULTI_DIRS[(k + 1 + k // 3 % 2) % 3], 'pre': pre, 'seq': before + [a], 'via_job': k % 4 < 2,
+                            'alias': MULTI_ALIAS[k % len(MULTI_ALIAS)]}
+                out.append([prepared, clean] if k % 3 == 2 else [clean, prepared])
+                k += 1
+    for i, x in enumerate(MULTI_DIRS):
+        for j, y in enumerate(MULTI_DIRS):
+            if i != j:
+                for t, tmpl in enumerate(MULTI_ABS):
+                    a = ('extract', [(nm % x if '%s' in nm else nm, kd, (ln % x if '%s' in ln else ln)) for nm, kd, ln in tmpl])
+                    out.append([{'dir': x, 'pre': [], 'seq': [a], 'via_job': (i + t) % 2 == 0, 'alias': None},
+                                {'dir': y, 'pre': [], 'seq': [a], 'via_job': (j + t) % 2 == 0, 'alias': MULTI_ALIAS[(i + j + t) % 5]}])
+    return out
+
+
+def gen_multi(rng):
+    """2..3 components in distinct directories; 1..2 archives that most extract steps use; each directory found empty or
+    holding something at the name; 1..3 steps each"""
+    n = rng.choice(['out.txt', 'sub', 'sub'])
+    dirs = rng.sample(MULTI_DIRS, rng.randint(2, 3))
+    pool = extract_steps(n) + [st for st in SEQ_OTHER if st[0] == 'extract']
+    if rng.random() < 0.3:
+        pool = pool + [('extract', [(nm % dirs[0] if '%s' in nm else nm, kd, (ln % dirs[0] if '%s' in ln else ln))
+                                    for nm, kd, ln in rng.choice(MULTI_ABS)])]
+    shared = rng.sample(pool, rng.randint(1, 2))
+    comps = []
+    for d in dirs:
+        pre = list(rng.choice(SEQ_PRE[n])) if rng.random() < 0.3 else []
+        seq = []
+        for _ in range(rng.randint(1, 3)):
+            r = rng.random()
+            seq.append(rng.choice(shared) if r < 0.6 else (rng.choice(SEQ_STEPS[n]) if r < 0.9 else rng.choice(SEQ_OTHER)))
+        if not any(st in shared for st in seq):
+            seq.append(rng.choice(shared))
+        comps.append({'dir': d, 'pre': pre, 'seq': seq, 'via_job': rng.random() < 0.5, 'alias': rng.choice(MULTI_ALIAS)})
+    return comps
+
+
+# boundary cases kept forever
+CORPUS_MULTI = [
+    # round-7 seed C18_m11: an archive accepted for one directory was extracted unchecked into another one, through the
+    # link an earlier :link reference had left there
+    [{'dir': 't/work', 'pre': [], 'seq': [('extract', [('n.txt', 'file', ''), ('sub/x.dat', 'file', '')])], 'via_job': True, 'alias': None},
+     {'dir': 't/wb', 'pre': [], 'seq': [('link', 'srcs/prod/sub'), ('extract', [('n.txt', 'file', ''), ('sub/x.dat', 'file', '')])],
+      'via_job': True, 'alias': None}],
+    # an absolute name is inside exactly one working directory
+    [{'dir': 't/wb', 'pre': [], 'seq': [('extract', [('n.txt', 'file', ''), (SB + '/t/wb/state.txt', 'file', '')])], 'via_job': False, 'alias': None},
+     {'dir': 't/wc', 'pre': [], 'seq': [('extract', [('n.txt', 'file', ''), (SB + '/t/wb/state.txt', 'file', '')])], 'via_job': False, 'alias': None}],
+    # the refusal for a directory that holds a link says nothing about a clean one; the same file by another path
+    [{'dir': 't/wc', 'pre': [('sub', 'link', SB + '/out')], 'seq': [('extract', [('sub/x.dat', 'file', '')])], 'via_job': True, 'alias': None},
+     {'dir': 't/work', 'pre': [], 'seq': [('extract', [('sub/x.dat', 'file', '')])], 'via_job': False, 'alias': 'symlink'},
+     {'dir': 't/wb', 'pre': [('sub', 'link', 'gone')], 'seq': [('extract', [('sub/x.dat', 'file', '')])], 'via_job': True, 'alias': 'copy'}],
+]
+# one directory, the same archive file referenced again after the directory changed
+CORPUS_SHARE = [
+    ([], [('extract', [('other.txt', 'file', ''), ('out.txt', 'sym', 'other.txt')]),
+          ('extract', [('other.txt', 'file', ''), ('out.txt', 'sym', 'other.txt')])]),
+    ([], [('extract', [('d', 'dir', ''), ('d/k', 'file', '')]), ('copy', 'srcs/prod2/sub'), ('extract', [('d', 'dir', ''), ('d/k', 'file', '')]),
+          ('extract', [('sub/lnk/e.txt', 'file', '')])]),
+]
+
+
+def run_multi_case(ctx, comps, label):
+    pool = POOLS['work']
+    sb = pool.acquire()
+    made = []
+    base = None
+    try:
+        def rest():
+            """everything but the pool's directory and the archive files the cases write"""
+            return {k: v for k, v in listing(sb.root, exclude=sb.work).items() if not k.startswith('arch' + os.sep)}
+        base = rest()
+
+        def cm(w):
+            return w if isinstance(w, str) else [[sb.canonical(sb.real(n)), k, sb.canonical(sb.real(l))] for n, k, l in w]
+        canon = {'multi': [{'dir': c['dir'], 'pre': [[r, k, sb.canonical(sb.real(t))] for r, k, t in c['pre']],
+                            'seq': [[m, cm(w)] for m, w in c['seq']], 'via_job': c['via_job'], 'alias': c.get('alias')}
+                           for c in comps]}
+        ctx.case(canon, nontrivial=True)
+        ctx.count('multi:' + label)
+        ctx.count('multi:components=%d' % len(comps))
+        for c in comps:
+            w = os.path.join(sb.root, c['dir'])
+            if w != sb.work and not os.path.lexists(w):
+                os.makedirs(w)
+                made.append(w)
+        archives = {}
+        out = []
+        for j, c in enumerate(comps):
+            ctx.count('multi:alias=%s' % c.get('alias'))
+            r, _ = seq_core(ctx, sb, os.path.join(sb.root, c['dir']), c['pre'], c['seq'], c['via_job'], 'multi-' + label,
+                            archives, (canon, j), c.get('alias'))
+            out.append(r)
+        codes = [r[2]['codes'] for r in out]
+        if any(1 in cs for cs in codes) and any(cs and cs[-1] == 0 for cs in codes):
+            ctx.count('multi:an-archive-staged-here-refused-there')
+        return out
     finally:
-        pool.release(sb, changed)
+        for w in made:
+            shutil.rmtree(w, ignore_errors=True)
+        pool.release(sb, base is None or rest() != base)
 
 
 # ------------------------------------------------------------------ source folders with links inside
@@ -1214,12 +1417,15 @@ CORPUS_MAN = [
 ]
 
 
-def _explore(ctx, tar_cases, stage_cases, man_cases, seq_cases=()):
+def _explore(ctx, tar_cases, stage_cases, man_cases, seq_cases=(), multi_cases=()):
     tar_terms, stage_terms, man_terms, pre_terms, seq_terms = [], [], [], [], []
     try:
         _drive(ctx, tar_cases, stage_cases, man_cases, tar_terms, stage_terms, man_terms, pre_terms)
         for c in seq_cases:
-            seq_terms.append(run_seq_case(ctx, c['pre'], c['seq'], c.get('via_job', True), c.get('label', 'gen')))
+            seq_terms.append(run_seq_case(ctx, c['pre'], c['seq'], c.get('via_job', True), c.get('label', 'gen'),
+                                          c.get('share', False)))
+        for c in multi_cases:
+            seq_terms.extend(run_multi_case(ctx, c['comps'], c.get('label', 'gen')))
     finally:
         for p in POOLS.values():
             p.close()
@@ -1268,7 +1474,12 @@ def run(ctx):
                 '(copy / copyout / link / extract) staged into one working directory, via Job.stageIn and via repeated '
                 'StageReference: all ordered pairs over the steps that produce the same name (file, directory, link, archive '
                 'member on / below / through it), each step after each thing found in the directory (links outside / inside / '
-                'dangling / looping, files, directories holding links), random longer ones; non-trivial = has a link, a '
+                'dangling / looping, files, directories holding links), random longer ones; the SAME archive file referenced '
+                'more than once in the process: 2..3 components with their own working directories (every archive of the '
+                'colliding-name alphabets into an empty directory and into one prepared in every way that puts a link / file / '
+                'directory at or on the way to the name, in both orders; archives with absolute names inside one of the '
+                'directories; random ones; the file reached by its path, a symbolic link, a hard link, a copy2), and one '
+                'component that references an archive again before / after every other step; non-trivial = has a link, a '
                 'parent segment, an absolute name or a nested key; distinct by the canonical input')
     quick = ctx.tier == 'quick'
     tar_cases = [{'members': m, 'label': 'corpus', 'via_job': i % 2 == 0} for i, m in enumerate(CORPUS_TAR)]
@@ -1330,8 +1541,28 @@ def run(ctx):
     for i in range(120 if quick else 2500):
         pre, seq = gen_seq(rng)
         seq_cases.append({'pre': pre, 'seq': seq, 'label': 'gen', 'via_job': i % 2 == 0})
-    _explore(ctx, tar_cases, stage_cases, man_cases, seq_cases)
-    ctx.count('cases', len(tar_cases) + len(stage_cases) + len(man_cases) + len(seq_cases))
+    # the same archive FILE referenced more than once in this process (drawn last: the other streams keep their cases):
+    # twice by one component (every archive of the alphabets, before and after every other step; random sequences), and
+    # by several components with their own directories
+    for (pre, seq) in CORPUS_SHARE:
+        for vj in (True, False):
+            seq_cases.append({'pre': pre, 'seq': seq, 'label': 'corpus-same-archive-again', 'via_job': vj, 'share': True})
+    for n in sorted(SEQ_STEPS):
+        for i, a in enumerate(extract_steps(n)):
+            seq_cases.append({'pre': [], 'seq': [a, a], 'label': 'same-archive-again', 'via_job': i % 2 == 0, 'share': True})
+            for j, b in enumerate(SEQ_STEPS[n]):
+                if b != a:
+                    seq_cases.append({'pre': [], 'seq': [a, b, a], 'label': 'same-archive-again', 'via_job': False, 'share': True})
+    for i in range(40 if quick else 800):
+        pre, seq = gen_seq(rng)
+        seq.insert(rng.randint(0, len(seq)), rng.choice([st for st in seq if st[0] == 'extract'] or extract_steps('sub')))
+        seq_cases.append({'pre': pre, 'seq': seq, 'label': 'gen-same-archive-again', 'via_job': i % 4 == 0, 'share': True})
+    multi_cases = [{'comps': c, 'label': 'corpus'} for c in CORPUS_MULTI]
+    multi_cases += [{'comps': c, 'label': 'family'} for c in multi_family()]
+    for i in range(40 if quick else 1200):
+        multi_cases.append({'comps': gen_multi(rng), 'label': 'gen'})
+    _explore(ctx, tar_cases, stage_cases, man_cases, seq_cases, multi_cases)
+    ctx.count('cases', len(tar_cases) + len(stage_cases) + len(man_cases) + len(seq_cases) + len(multi_cases))
 
 
 def replay(ctx, path):
@@ -1357,13 +1588,20 @@ def replay(ctx, path):
                           'trees': trees})
     elif 'source' in c:
         stage_cases.append({'source': c['source'].split('/sb/', 1)[1], 'method': c['method'], 'via_job': c.get('via_job', True)})
-    seq_cases = []
+    seq_cases, multi_cases = [], []
+
+    def useq(q):
+        return [(m, w if isinstance(w, str) else [(unc(n), k, unc(l)) for n, k, l in w]) for m, w in q]
     if 'seq' in c:
         tar_cases = []
         seq_cases.append({'pre': [(r, k, unc(t)) for r, k, t in c['pre']], 'via_job': c.get('via_job', True), 'label': 'replay',
-                          'seq': [(m, w if isinstance(w, str) else [(unc(n), k, unc(l)) for n, k, l in w]) for m, w in c['seq']]})
+                          'seq': useq(c['seq']), 'share': c.get('share', False)})
+    if 'multi' in c:
+        multi_cases.append({'label': 'replay', 'comps': [
+            {'dir': m['dir'], 'pre': [(r, k, unc(t)) for r, k, t in m['pre']], 'seq': useq(m['seq']), 'via_job': m['via_job'],
+             'alias': m.get('alias')} for m in c['multi']]})
     _ = canon_root
-    _explore(ctx, tar_cases, stage_cases, man_cases, seq_cases)
+    _explore(ctx, tar_cases, stage_cases, man_cases, seq_cases, multi_cases)
     for f in ctx.failures:
         print('REPRODUCED: %s on %s' % (f['what'], json.dumps(f['case'])[:400]))
     for f in ctx.disagreements:
